@@ -34,7 +34,7 @@ Lemma safe_lift {R} t (p : prog R) : core p -> forall l1 lE (Q1 : R -> L -> Prop
 Proof.
   induction p as [r|es k IH|f k IH]; intros Hc l1 lE Q1 Hs; cbn [Conc.safe core] in *.
   - split; [exact Hs|reflexivity].
-  - destruct Hc as ((e & -> & Hp) & Hk). intros g [a1 aE] tr (HI & HE) Hv. unfold view12 in Hv. cbn [fst snd] in *.
+  - destruct Hc as ((e & -> & Hp & _) & Hk). intros g [a1 aE] tr (HI & HE) Hv. unfold view12 in Hv. cbn [fst snd] in *.
     injection Hv as Hv1 HvE.
     destruct (Hs g a1 tr HI Hv1) as (a1' & H1 & H2 & H3).
     exists (a1', aE). split; [split; [exact H1|apply InvE_keep with (g := g); auto]|].
@@ -42,7 +42,7 @@ Proof.
     unfold view12. cbn [fst snd]. rewrite HvE. apply IH; assumption.
   - destruct Hc as (Hf & Hk). intros g [a1 aE] tr (HI & HE) Hv. unfold view12 in Hv. cbn [fst snd] in *.
     injection Hv as Hv1 HvE.
-    destruct (Hs g a1 tr HI Hv1) as (a1' & H1 & H2 & H3). destruct (Hf g) as ((Eb & Ee) & _).
+    destruct (Hs g a1 tr HI Hv1) as (a1' & H1 & H2 & H3). destruct (Hf g) as ((Eb & Ee & _) & _).
     exists (a1', aE). split; [split; [exact H1|apply InvE_keep with (g := g); auto]|].
     split; [apply frame12; [exact H2|apply frameE_refl]|].
     unfold view12. cbn [fst snd]. rewrite HvE. apply IH; auto.
@@ -84,7 +84,9 @@ Lemma SmB_mono l i i' : (i <= i')%nat -> SmB l i -> SmB l i'.
 Proof. intros H B j Hj. specialize (B j Hj). lia. Qed.
 
 Section Gpb.
-  Variables (sfuel : nat) (cap : Z) (cnt : bool).
+  Variables (sfuel : nat) (cap : Z) (cnt : bool) (mb : prog bool).
+  Hypothesis Hmbc : core mb.
+  Hypothesis Hmbn : gpn mb.
   Variable t : nat.
 
   (** "dispose p" of my first entry, retired before the start [i] of my completed grace period *)
@@ -108,20 +110,20 @@ Section Gpb.
     (forall w' es', ~ holder w' -> (forall i, l_w l1 = WFin i -> exists i', w' = WFin i' /\ (i <= i')%nat) ->
        Q true (set_w l1 w', (hs, es'))) ->
     (forall l', Q false l') ->
-    safe12 t (push_buffer 2 sfuel cap cnt rf p e) (l1, ((p, Some e, k) :: hs, es)) Q.
+    safe12 t (push_buffer 2 sfuel cap cnt mb rf p e) (l1, ((p, Some e, k) :: hs, es)) Q.
 
   Definition PSyncE (rf : nat) : Prop := forall hs es l1 (Q : bool -> L12 -> Prop),
     ~ holder (l_w l1) ->
     (forall i' es', HsBelow i' hs -> SmB l1 i' -> (forall i, l_w l1 = WFin i -> (i <= i')%nat) ->
        Q true (set_w l1 (WFin i'), (hs, es'))) ->
     (forall l', Q false l') ->
-    safe12 t (synchronize 2 sfuel cap cnt rf) (l1, (hs, es)) Q.
+    safe12 t (synchronize 2 sfuel cap cnt mb rf) (l1, (hs, es)) Q.
 
   Definition PClearE (rf : nat) : Prop := forall n i hs l1 (Q : bool -> L12 -> Prop),
     l_w l1 = WFin i ->
     (forall i' es', (i <= i')%nat -> Q true (set_w l1 (WFin i'), (hs, es'))) ->
     (forall l', Q false l') ->
-    safe12 t (clear_buffer 2 sfuel cap cnt rf n) (l1, (hs, EIn i n)) Q.
+    safe12 t (clear_buffer 2 sfuel cap cnt mb rf n) (l1, (hs, EIn i n)) Q.
 
   Lemma set_w_same l : set_w l (l_w l) = l.
   Proof. destruct l; reflexivity. Qed.
@@ -144,7 +146,7 @@ Section Gpb.
     assert (HC : forall n i hs l1 (Q : bool -> L12 -> Prop),
       l_w l1 = WFin i ->
       (forall i' es', (i <= i')%nat -> Q true (set_w l1 (WFin i'), (hs, es'))) -> (forall l', Q false l') ->
-      safe12 t (clear_buffer 2 sfuel cap cnt (S f) n) (l1, (hs, EIn i n)) Q).
+      safe12 t (clear_buffer 2 sfuel cap cnt mb (S f) n) (l1, (hs, EIn i n)) Q).
     { intros n i hs l1 Q Hw HT HF. cbn [clear_buffer Conc.safe]. intros g [a1 aE] tr (HI & HE) Hv.
       unfold view12, view, viewE in Hv. cbn [fst snd] in *. injection Hv as Hv1 Hm Hs. unfold a_buf_pop.
       destruct (g_buf g) as [|[p e] r] eqn:Eb; cbn [fst snd vp].
@@ -170,7 +172,7 @@ Section Gpb.
       ~ holder (l_w l1) ->
       (forall i' es', HsBelow i' hs -> SmB l1 i' -> (forall i, l_w l1 = WFin i -> (i <= i')%nat) ->
          Q true (set_w l1 (WFin i'), (hs, es'))) -> (forall l', Q false l') ->
-      safe12 t (synchronize 2 sfuel cap cnt (S f)) (l1, (hs, es)) Q).
+      safe12 t (synchronize 2 sfuel cap cnt mb (S f)) (l1, (hs, es)) Q).
     { intros hs es l1 Q Hn HT HF. cbn [synchronize Conc.safe]. intros g [a1 aE] tr (HI & HE) Hv.
       unfold view12, view, viewE in Hv. cbn [fst snd] in *. injection Hv as Hv1 Hm Hs. unfold a_epoch_ld. cbn [fst snd].
       (* the epoch load: choose the start marker *)
@@ -205,10 +207,18 @@ Section Gpb.
         + split; [apply frame12; [apply frame_updA|apply frameE_sync]|].
           unfold view12, view, viewE. cbn [fst snd e_h e_s]. rewrite updA_same, Hv1, Hm, Nat.eqb_refl. cbn [set_w].
           apply safe12_bind.
+          eapply Conc.safe_weaken; [|apply safe_lift; [exact Hmbc|
+            apply (safe1_gpn t mb Hmbn _ (fun _ l' => l' = set_w l1 (WHeld0 i'))); reflexivity]].
+          intros [|] [l1' lE'] (HQ1 & HQ2); cbn [fst snd] in *; [|apply HF]. subst l1' lE'.
+          cbv beta iota. apply safe12_bind.
           eapply Conc.safe_weaken; [|apply safe_lift; [apply core_flips|
             apply (safe_flips2 t sfuel i' _ (fun ok l' => if ok then exists gph done, l' = set_w l1 (WPhase i' true gph (PScan done [] L0)) else True));
               [reflexivity|intros gph done; exists gph, done; reflexivity|intros; exact I]]].
           intros [|] [l1' lE'] (HQ1 & HQ2); cbn [fst snd] in *; [|apply HF]. destruct HQ1 as (gph & done & ->). subst lE'.
+          cbv beta iota. apply safe12_bind.
+          eapply Conc.safe_weaken; [|apply safe_lift; [exact Hmbc|
+            apply (safe1_gpn t mb Hmbn _ (fun _ l' => l' = set_w l1 (WPhase i' true gph (PScan done [] L0)))); reflexivity]].
+          intros [|] [l1' lE'] (HQ1 & HQ2); cbn [fst snd] in *; [|apply HF]. subst l1' lE'.
           cbv beta iota. apply safe12_bind.
           eapply Conc.safe_weaken; [|apply safe_lift; [apply core_unlock|
             apply (safe_unlock t i' gph done _ (fun _ l' => l' = set_w l1 (WFin i'))); reflexivity]].
@@ -243,7 +253,9 @@ Section Gpb.
 End Gpb.
 
 Section Ops.
-  Variables (sfuel : nat) (cap : Z) (cnt : bool) (rf : nat).
+  Variables (sfuel : nat) (cap : Z) (cnt : bool) (mb : prog bool) (rf : nat).
+  Hypothesis Hmbc : core mb.
+  Hypothesis Hmbn : gpn mb.
   Variable t : nat.
 
   Lemma safe12_retire_ev {R} p hs es l1 (k : prog R) Q :
@@ -279,12 +291,12 @@ Section Ops.
   Lemma safe12_push_all e ents : forall es l1 (Q : bool -> L12 -> Prop),
     ~ holder (l_w l1) ->
     (forall w' es', ~ holder w' -> Q true (set_w l1 w', ([], es'))) -> (forall l', Q false l') ->
-    safe12 t (push_all 2 sfuel cap cnt rf e (map fst ents)) (l1, (map (loaded_ent e) ents, es)) Q.
+    safe12 t (push_all 2 sfuel cap cnt mb rf e (map fst ents)) (l1, (map (loaded_ent e) ents, es)) Q.
   Proof.
     induction ents as [|[p k] r IH]; intros es l1 Q Hn HT HF; cbn [push_all map fst].
     - cbn. rewrite <- (set_w_same l1). apply HT. exact Hn.
     - apply safe12_bind. cbn [loaded_ent fst snd].
-      apply (proj1 (safe_gpbE sfuel cap cnt t rf)); [exact Hn| |intros l'; cbv beta iota; apply HF].
+      apply (proj1 (safe_gpbE sfuel cap cnt mb Hmbc Hmbn t rf)); [exact Hn| |intros l'; cbv beta iota; apply HF].
       intros w' es' Hn' _. cbv beta iota. apply IH; [exact Hn'| |exact HF].
       intros w'' es'' Hn''. cbn [set_w]. apply HT. exact Hn''.
   Qed.
@@ -297,7 +309,7 @@ Section Ops.
   Lemma safe12_gpb_retire s ps tail l (Q : bool -> L12 -> Prop) :
     (tail = [] \/ exists name, tail = cli name [] /\ neutral (EvCli name [])) ->
     Between s l -> (forall l', Between s l' -> Q true l') -> (forall l', Q false l') ->
-    safe12 t (gpb_retire 2 sfuel cap cnt rf ps tail) l Q.
+    safe12 t (gpb_retire 2 sfuel cap cnt mb rf ps tail) l Q.
   Proof.
     intros Htail (HI & es & Hl) HT HF. destruct l as [l1 lE]. cbn [fst snd] in *. subst lE. unfold gpb_retire.
     change (@nil hent) with (map fresh_ent []). apply safe12_emit_retires. intros ents Eps. cbn [app].
@@ -329,7 +341,7 @@ Section Ops.
 
   Lemma safe12_gpb_sync s l (Q : bool -> L12 -> Prop) :
     Between s l -> (forall l', Between s l' -> Q true l') -> (forall l', Q false l') ->
-    safe12 t (gpb_sync 2 sfuel cap cnt rf) l Q.
+    safe12 t (gpb_sync 2 sfuel cap cnt mb rf) l Q.
   Proof.
     intros (HI & es & Hl) HT HF. destruct l as [l1 lE]. cbn [fst snd] in *. subst lE. unfold gpb_sync.
     cbn [Conc.safe]. intros g [a1 aE] tr (HInv & HE) Hv. unfold view12, view, viewE in Hv. cbn [fst snd] in *.
@@ -344,7 +356,7 @@ Section Ops.
     - apply InvE_keep with (g := g); auto.
     - split; [apply frame12; [apply frame_updA|apply frameE_refl]|].
       unfold view12, view, viewE. cbn [fst snd]. rewrite updA_same, Hm, Hs.
-      apply safe12_bind. apply (proj1 (proj2 (safe_gpbE sfuel cap cnt t rf))); [intros []| |intros l'; cbv beta iota; apply HF].
+      apply safe12_bind. apply (proj1 (proj2 (safe_gpbE sfuel cap cnt mb Hmbc Hmbn t rf))); [intros []| |intros l'; cbv beta iota; apply HF].
       intros i' es' _ Hsm _. cbv beta iota. cbn [set_w].
       assert (Hni : (n <= i')%nat) by (apply Hsm; reflexivity).
       clearbody n. clear g a1 aE tr HInv HE Hv1 Hm Hs.
@@ -362,7 +374,7 @@ Section Ops.
   Definition QB12 (s0 : lst) : option lst -> L12 -> Prop :=
     fun r l' => match r with Some s' => Between s' l' | None => True end.
 
-  Lemma safe12_run_bop s o l : Between s l -> safe12 t (run_bop 2 sfuel cap cnt rf t s o) l (QB12 s).
+  Lemma safe12_run_bop s o l : Between s l -> safe12 t (run_bop 2 sfuel cap cnt mb rf t s o) l (QB12 s).
   Proof.
     intros HB. destruct o as [o|ps]; cbn [run_bop].
     - assert (Hcore : core_op o = true ->
@@ -380,7 +392,7 @@ Section Ops.
       intros l' HB'. cbn. exact HB'.
   Qed.
 
-  Lemma safe12_run_bops os : forall s l, Between s l -> safe12 t (run_bops 2 sfuel cap cnt rf t s os) l (@Conc.QTrue L12).
+  Lemma safe12_run_bops os : forall s l, Between s l -> safe12 t (run_bops 2 sfuel cap cnt mb rf t s os) l (@Conc.QTrue L12).
   Proof.
     induction os as [|o r IH]; intros s l HB; cbn [run_bops].
     - apply safe12_bind. destruct l as [l1 lE]. destruct HB as (HI & es & Hl). cbn [fst snd] in *. subst lE.
@@ -392,17 +404,19 @@ Section Ops.
       + apply safe12_emit_neutral; [repeat split|exact I].
   Qed.
 
-  Lemma safe12_thread os : safe12 t (bthread_prog 2 sfuel cap cnt rf t os) (l0, ([], ENone)) (@Conc.QTrue L12).
+  Lemma safe12_thread os : safe12 t (bthread_prog 2 sfuel cap cnt mb rf t os) (l0, ([], ENone)) (@Conc.QTrue L12).
   Proof.
     unfold bthread_prog. apply safe12_act_plain; [plain12|]. intros _. apply safe12_run_bops.
     split; [cbn; split; [repeat split|reflexivity]|exists ENone; reflexivity].
   Qed.
 End Ops.
 
-Lemma binit12_ok sfuel rf cap cnt ths : Conc.cfg_ok view12 Inv12 (binit_cfg 2 sfuel rf cap cnt ths).
+Lemma xinit12_ok sfuel rf cap cnt mb extra ths :
+  core mb -> gpn mb -> Forall (fun p => core p /\ gpn p) extra ->
+  Conc.cfg_ok view12 Inv12 (xinit_cfg 2 sfuel rf cap cnt mb extra ths).
 Proof.
-  exists (fun _ => l0, mkE [] [] (fun _ => ENone)). split.
-  - cbn [binit_cfg Conc.shared Conc.trace]. split; cbn [fst snd].
+  intros Hmbc Hmbn Hex. exists (fun _ => l0, mkE [] [] (fun _ => ENone)). split.
+  - cbn [xinit_cfg Conc.shared Conc.trace]. split; cbn [fst snd].
     + split; [|split; [|split]].
       * constructor; cbn; try discriminate; try contradiction; auto.
         -- intros m _. exists false. reflexivity.
@@ -415,20 +429,42 @@ Proof.
         -- intros w i j (e & H & _). destruct i; discriminate.
         -- intros w p d (e & H & _). destruct d; discriminate.
     + constructor; cbn; try contradiction; try discriminate. reflexivity.
-  - intros t p Hp. cbn [binit_cfg Conc.threads] in Hp. rewrite nth_error_map in Hp.
-    destruct (nth_error (number O ths) t) as [x|] eqn:E; [|discriminate]. inversion Hp; subst p.
-    apply nth_error_number in E. cbn in E. rewrite E. unfold view12, view, viewE. cbn. apply safe12_thread.
+  - intros t p Hp. cbn [xinit_cfg Conc.threads] in Hp.
+    destruct (Nat.lt_ge_cases t (List.length ths)) as [Hlt|Hge].
+    + rewrite nth_error_app1 in Hp by (rewrite map_length, number_length; exact Hlt). rewrite nth_error_map in Hp.
+      destruct (nth_error (number O ths) t) as [x|] eqn:E; [|discriminate]. inversion Hp; subst p.
+      apply nth_error_number in E. cbn in E. rewrite E. unfold view12, view, viewE. cbn. apply safe12_thread; assumption.
+    + rewrite nth_error_app2 in Hp by (rewrite map_length, number_length; exact Hge).
+      apply nth_error_In in Hp. rewrite Forall_forall in Hex. destruct (Hex p Hp) as (Hc & Hn).
+      unfold view12, view, viewE. cbn.
+      eapply Conc.safe_weaken; [|apply safe_lift; [exact Hc|apply (safe1_gpn t p Hn l0 (fun _ _ => True)); intros; exact I]].
+      intros; exact I.
 Qed.
 
-(** ** theorems for every schedule: general_buffered with the two flips of the real code *)
+(** ** theorems for every schedule: the buffered flavours with the two flips of the real code *)
+Section Thms12.
+  Variables (sfuel rf : nat) (cap : Z) (cnt : bool) (mb : prog bool) (extra : list (Conc.thread G V ev)) (ths : list (list bop)).
+  Hypothesis Hmbc : core mb.
+  Hypothesis Hmbn : gpn mb.
+  Hypothesis Hex : Forall (fun p => core p /\ gpn p) extra.
+  Variable c : Conc.config G V ev.
+  Hypothesis Hr : Conc.reach (xinit_cfg 2 sfuel rf cap cnt mb extra ths) c.
+
+  Theorem x_dispose_safe : dispose_safe (Conc.trace c).
+  Proof.
+    destruct (Conc.reach_Inv (xinit12_ok sfuel rf cap cnt mb extra ths Hmbc Hmbn Hex) Hr) as (a & (_ & _ & _ & I4) & _). apply (DS _ _ I4).
+  Qed.
+
+  Theorem x_sync_waits : sync_waits (Conc.trace c).
+  Proof.
+    destruct (Conc.reach_Inv (xinit12_ok sfuel rf cap cnt mb extra ths Hmbc Hmbn Hex) Hr) as (a & (_ & _ & _ & I4) & _). apply (SW _ _ I4).
+  Qed.
+End Thms12.
+
 Theorem gpb_dispose_safe_all sfuel rf cap cnt ths c :
   Conc.reach (binit_cfg 2 sfuel rf cap cnt ths) c -> dispose_safe (Conc.trace c).
-Proof.
-  intros Hr. destruct (Conc.reach_Inv (binit12_ok sfuel rf cap cnt ths) Hr) as (a & (_ & _ & _ & I4) & _). apply (DS _ _ I4).
-Qed.
+Proof. intros Hr. eapply x_dispose_safe; [| | |exact Hr]; [exact I|exact I|constructor]. Qed.
 
 Theorem gpb_synchronize_waits_all sfuel rf cap cnt ths c :
   Conc.reach (binit_cfg 2 sfuel rf cap cnt ths) c -> sync_waits (Conc.trace c).
-Proof.
-  intros Hr. destruct (Conc.reach_Inv (binit12_ok sfuel rf cap cnt ths) Hr) as (a & (_ & _ & _ & I4) & _). apply (SW _ _ I4).
-Qed.
+Proof. intros Hr. eapply x_sync_waits; [| | |exact Hr]; [exact I|exact I|constructor]. Qed.
